@@ -91,12 +91,12 @@ BIG_EXTRA = [("typed", STR), ("typed", FLOAT), ("generic", LIST, [("typed", INT)
              ("seq", TUPLE, [("typed", INT)]), ("subclass", INT), ("generic", SET, [("typed", STR)])]
 
 
-def gen_big_union(rng, allow_any=False):
+def gen_big_union(rng, allow_any=False, unhashable=True):
     """A union of >= 10 members (MultiValuedValue switches to a hash-set fast path for its literal members at 10):
     mostly distinct literals, sometimes an unhashable literal, sometimes non-literal members."""
     n = rng.choice([9, 10, 10, 11, 12, 14])
     ms = rng.sample(BIG_POOL, min(n, len(BIG_POOL)))
-    if rng.random() < 0.5:
+    if unhashable and rng.random() < 0.5:
         ms[rng.randrange(len(ms))] = ("known", rng.choice(BIG_UNHASHABLE))
     for _ in range(rng.choice([0, 0, 1, 2])):
         e = rng.choice(BIG_EXTRA)
@@ -107,10 +107,12 @@ def gen_big_union(rng, allow_any=False):
     return ("union", ms)
 
 
-def gen_ty(rng, depth=2, allow_any=False, allow_seq=True, top=True):
+def gen_ty(rng, depth=2, allow_any=False, allow_seq=True, top=True, big_unhashable=False):
+    """big_unhashable: big unions may hold a literal of an unhashable object (not expressible as a typing annotation:
+    only for harnesses that build Values directly)."""
     r = rng.random()
     if depth >= 1 and r < 0.03:
-        return gen_big_union(rng, allow_any)
+        return gen_big_union(rng, allow_any, unhashable=big_unhashable)
     if depth <= 0 or r < 0.35:
         r2 = rng.random()
         if allow_any and r2 < 0.08:
@@ -127,12 +129,12 @@ def gen_ty(rng, depth=2, allow_any=False, allow_seq=True, top=True):
         return ("union", [])
     r = rng.random()
     if r < 0.3:
-        return ("generic", rng.choice(GEN1), [gen_ty(rng, depth - 1, allow_any, allow_seq, False)])
+        return ("generic", rng.choice(GEN1), [gen_ty(rng, depth - 1, allow_any, allow_seq, False, big_unhashable)])
     if r < 0.4:
-        return ("generic", rng.choice(GEN2), [gen_ty(rng, depth - 1, allow_any, False, False), gen_ty(rng, depth - 1, allow_any, allow_seq, False)])
+        return ("generic", rng.choice(GEN2), [gen_ty(rng, depth - 1, allow_any, False, False, big_unhashable), gen_ty(rng, depth - 1, allow_any, allow_seq, False, big_unhashable)])
     if r < 0.65 and allow_seq:
         n = rng.choice([0, 1, 2, 2, 3])
-        ms = [gen_ty(rng, depth - 1, allow_any, allow_seq, False) for _ in range(n)]
+        ms = [gen_ty(rng, depth - 1, allow_any, allow_seq, False, big_unhashable) for _ in range(n)]
         if ms and rng.random() < 0.3:
             i = rng.randrange(len(ms))
             ms[i] = ("many", ms[i])
@@ -141,11 +143,11 @@ def gen_ty(rng, depth=2, allow_any=False, allow_seq=True, top=True):
         n = rng.choice([2, 2, 3])
         ts = []
         for _ in range(n):
-            t = gen_ty(rng, depth - 1, allow_any, allow_seq, False)
+            t = gen_ty(rng, depth - 1, allow_any, allow_seq, False, big_unhashable)
             ts += t[1] if t[0] == "union" else [t]
         # MultiValuedValue never holds a single member / equal duplicates are legal but rare
         return ("union", ts) if len(ts) != 1 else ts[0]
-    t = gen_ty(rng, depth - 1, allow_any, allow_seq, False)
+    t = gen_ty(rng, depth - 1, allow_any, allow_seq, False, big_unhashable)
     return ("annotated", t) if t[0] != "annotated" and t != ("union", []) else t
 
 
